@@ -52,7 +52,8 @@ def run(chk):
     chk.exhaustive = True
     chk.rule = ('all 37 categories (children/nodes/leaves/all/tree), all 37x37 is_child pairs, every include x exclude '
                 'pair of subsets of size <= 2 (704 x 704) for valid, match on every category for a stride of those, random '
-                'larger sets, and list/tuple/set/single/None argument shapes; non-trivial = distinct argument tuple')
+                'larger sets, list/tuple/set/single/None argument shapes, and histories in which the caller edits ONE include / exclude '
+                'collection in place between calls; non-trivial = distinct argument tuple')
 
     # ---- independent reading of the documented tree
     def anc(c):
@@ -204,6 +205,53 @@ def run(chk):
         for (im, em, how, got), m in zip(cases, model.batch(reqs)):
             if got != m:
                 chk.mismatch('valid|match', {'include': im, 'exclude': em, 'shape': how}, f'impl={got} model={m}')
+
+    # ---- histories: the caller keeps ONE include and ONE exclude collection (set or list), edits them in place
+    # between calls and calls valid / match / nodes / ... again: every answer must be the answer for the current content
+    def closure_of(iset, eset):
+        inc_all = set(names) if iset is None else (set().union(*[desc[a] for a in iset]) if iset else set())
+        return inc_all - (set().union(*[desc[a] for a in eset]) if eset else set())
+    nhist = 60 if not full else 600
+    hviol = 0
+    for h in range(nhist):
+        r = chk.rng
+        kind = r.choice(['set', 'set', 'list'])
+        inc_obj = (set if kind == 'set' else list)(by_name[a] for a in r.sample(names, r.randint(0, 3)))
+        exc_obj = (set if kind == 'set' else list)(by_name[a] for a in r.sample(names, r.randint(0, 2)))
+        trail = []
+        for step in range(r.randint(3, 8)):
+            obj = r.choice([inc_obj, exc_obj])
+            op = r.choice(['add', 'add', 'discard', 'clear', 'none', 'none'])
+            c = by_name[r.choice(names)]
+            if op == 'add':
+                obj.add(c) if kind == 'set' else obj.append(c)
+            elif op == 'discard' and len(obj):
+                victim = r.choice(sorted(obj, key=lambda x: x.name))
+                obj.discard(victim) if kind == 'set' else obj.remove(victim)
+            elif op == 'clear':
+                obj.clear()
+            q = by_name[r.choice(names)]
+            inc_now, exc_now = sorted({x.name for x in inc_obj}), sorted({x.name for x in exc_obj})
+            before = (list(inc_obj) if kind == 'list' else set(inc_obj), list(exc_obj) if kind == 'list' else set(exc_obj))
+            try:
+                mt = TC.match(q, include=inc_obj, exclude=exc_obj)
+                v = names_of(TC.valid(include=inc_obj, exclude=exc_obj))
+                mt2 = HM.match(q, include=inc_obj, exclude=exc_obj)
+            except Exception as e:
+                mt = mt2 = v = 'err:' + type(e).__name__
+            trail.append((op, c.name, q.name, inc_now, exc_now))
+            chk.case(('history', h, step, tuple(inc_now), tuple(exc_now), q.name), kind='history-' + kind)
+            want_v = closure_of(set(inc_now), set(exc_now))
+            want_m = bool(desc[q.name] & want_v)
+            if (mt != want_m or mt2 != want_m or v != want_v) and hviol < 10:
+                hviol += 1
+                chk.violation('history', f'after editing the caller\'s {kind}s in place, step {step}: match({q.name}, include={inc_now}, exclude={exc_now}) = {mt} / {mt2}, '
+                              f'valid = {sorted(v) if isinstance(v, set) else v}; expected match {want_m}', {'shape': kind, 'history': trail})
+            after = (list(inc_obj) if kind == 'list' else set(inc_obj), list(exc_obj) if kind == 'list' else set(exc_obj))
+            if after != before and hviol < 10:
+                hviol += 1
+                chk.violation('history', f'a query changed the caller\'s {kind}: {before} -> {after}', {'shape': kind, 'history': trail})
+    chk.notes['histories'] = nhist
     chk.sample({'include': cases[-1][0], 'exclude': cases[-1][1], 'shape': cases[-1][2], 'valid|match bits': cases[-1][3]})
     chk.traces_validated = chk.evaluations
     chk.disagreements_checked = len(chk.broken)
